@@ -7,10 +7,12 @@ at export / not drawn at all); the verdict is made by TLC on the id-canonicalise
 
 Secrets are read (a) from public attributes right after construction and (b) from the exported bytes with an
 independent reader (struct offsets of the documented formats + `cryptography` primitives called directly: RFC 3394
-unwrap, AES-ECB, AES-CBC) - never through spsdk.crypto.
+unwrap, AES-ECB, AES-CBC) - never through spsdk.crypto.  SB2.1 files built from a command file with keywrap statements are walked by
+harness/c04_rom.py (independent SB2 boot-ROM executor); the load commands at the key-blob table addresses are unwrapped by
+harness/c13_hw.py otfad_load_table (independent OTFAD key-blob loader), which yields the filler word of every wrapped key blob.
 
 Also run by runpy inside a process forked from a harness process that has pre-imported third-party modules but nothing of spsdk.
-job    = {"repo": path, "dir": workdir, "keys": keydir, "hab": habdir, "user": {field: hex}, "fake_rng": ""|"const"|"cycle:N",
+job    = {"repo": path, "dir": workdir, "keys": keydir, "hab": habdir, "user": {field: hex}, "fake_rng": ""|"const"|"cycle:N"|"const4",
           "steps": [{"op":"Construct","art":n,"kind":K,"how":H,"ex":[fields]} | {"op":"Export","art":n}
                     | {"op":"Reconfigure","art":n,"of":m,"kind":K,"how":"config","ex":[fields]}   (the OBJECT of artefact m is configured again)]}
 result = {"import_draws":[n,...], "steps":[{"op":..,"art":n,"fields":{name: hex}, "ctr":[keyhex,noncehex]|[], "draws":[[phase,n,hex]..]} | {"op":..,"error":..}]}
@@ -44,8 +46,8 @@ _fake_n = [0]
 
 
 def _traced(n):
-    if _fake == "const":  # end-to-end canary only: a broken generator must be noticed by the whole chain
-        v = bytes((0xA5 + i) & 0xFF for i in range(n))
+    if _fake == "const" or (_fake == "const4" and n == 4):  # end-to-end canary only: a broken generator must be noticed by the whole chain
+        v = bytes((0xA5 + i) & 0xFF for i in range(n))           # ("const4": only the 4-byte requests are answered with a constant)
     elif _fake.startswith("cycle:"):
         period = int(_fake.split(":")[1])
         k = _fake_n[0] % period
@@ -65,7 +67,7 @@ USER = {k: bytes.fromhex(v) for k, v in job["user"].items()}
 KINDS = {s["kind"] for s in job["steps"] if s["op"] == "Construct"}
 
 # ---- imports of the SPSDK modules under observation (draws made here are "import" draws)
-if KINDS & {"SB20", "SB21"}:
+if KINDS & {"SB20", "SB21", "SB21KW"}:
     from spsdk.sbfile.sb2.commands import CmdErase, CmdLoad, CmdReset
     from spsdk.sbfile.sb2.images import BootImageV20, BootImageV21, SBV2xAdvancedParams
     from spsdk.sbfile.sb2.sections import BootSectionV2
@@ -98,6 +100,10 @@ if "HEX" in KINDS:
 
 from cryptography.hazmat.primitives.ciphers import Cipher, algorithms, modes  # noqa: E402
 from cryptography.hazmat.primitives.keywrap import aes_key_unwrap  # noqa: E402
+
+if "SB21KW" in KINDS:  # independent of spsdk: the SB2 boot-ROM executor of C04 and the OTFAD key-blob loader of the C13 hardware model
+    import c04_rom  # noqa: E402
+    import c13_hw  # noqa: E402
 
 PHASE[0] = "run"
 IMPORT_DRAWS = [d[1] for d in DRAWS]
@@ -197,7 +203,10 @@ def sb_attrs(img, fields):
 
 
 def sb_export(img, kind):
-    data = img.export()
+    return sb_read(img.export(), kind)
+
+
+def sb_read(data, kind):
     # SB2 header: nonce[16] pad0[4] 'STMP' ... pad1[4] at 92 (96 bytes), header HMAC[32], key blob[80] = RFC3394(kek, dek|mac)[72] + 8
     if data[20:24] != b"STMP":
         raise RuntimeError("exported SB2 file has no STMP signature at offset 20")
@@ -209,6 +218,144 @@ def sb_export(img, kind):
     if kind == "SB20":
         f["kpad"] = blob[72:80]
     return f, [keys[:32], nonce]
+
+
+# ---------------------------------------------------------------------------------------------- SB2.1 from a command file with keywrap / encrypt
+# The device setup is the user's and the same in every build: two OTFAD key blobs (key, counter and range are mandatory in a keyblob
+# definition), the OTFAD KEK, the key-blob table at the flash base.  What changes from build to build (variant) is the application and
+# the layout of the command file.  What SPSDK chooses: DEK, MAC key, nonce, header padding and the filler word of every wrapped key blob.
+KW_ADDR = (0x08000000, 0x08000040)                              # where the keywrap statements load the wrapped key blobs 0 / 1
+KW_RANGE = ((0x08001000, 0x0800F3FF), (0x08010000, 0x080103FF))  # end address with ADE / VLD bits set
+
+
+def _kw_blobs():
+    import hashlib
+
+    return [(hashlib.sha256(b"C17 keyblob %d key" % i + USER["otfad_key"]).digest()[:16],
+             hashlib.sha256(b"C17 keyblob %d counter" % i + USER["otfad_ctr"]).digest()[:8]) for i in (0, 1)]
+
+
+def _kw_program(n):
+    """The command file as a list of sections (id, statements); statements: ("erase", lo, hi) | ("keywrap", kb) | ("encrypt", kb, file)
+    | ("load", file, address).  Both layouts wrap both key blobs exactly once."""
+    app, cfg = os.path.join(job["dir"], f"sbkw_app{n}.bin"), os.path.join(job["dir"], "sbkw_fcb.bin")
+    with open(app, "wb") as f:
+        f.write(app_binary(n))
+    with open(cfg, "wb") as f:
+        f.write(bytes(range(0x40, 0x80)))
+    if n % 2 == 0:
+        return [(0, [("erase", 0x08000000, 0x08020000), ("keywrap", 0), ("encrypt", 0, app), ("keywrap", 1)])]
+    return [(0, [("erase", 0x08000000, 0x08020000), ("keywrap", 1), ("keywrap", 0), ("load", cfg, 0x08000400)]),
+            (1, [("encrypt", 1, app)])]
+
+
+def _kw_bd_text(n):
+    blobs = _kw_blobs()
+    out = ["options {\n  flags = 0x8;\n  buildNumber = 0x1;\n  productVersion = \"1.00.00\";\n  componentVersion = \"1.00.00\";\n}\n"]
+    for i, (key, ctr) in enumerate(blobs):
+        out.append(f"keyblob ({i}) {{\n    (\n        start = {KW_RANGE[i][0]:#010x},\n        end = {KW_RANGE[i][1]:#010x},\n"
+                   f"        key = \"{key.hex()}\",\n        counter = \"{ctr.hex()}\"\n    )\n}}\n")
+    for sid, stmts in _kw_program(n):
+        out.append(f"section ({sid}) {{\n")
+        for st in stmts:
+            if st[0] == "erase":
+                out.append(f"  erase {st[1]:#x}..{st[2]:#x};\n")
+            elif st[0] == "keywrap":
+                out.append(f"  keywrap ({st[1]}) {{\n    load {{{{ {OTFAD_KEK.hex()} }}}} > {KW_ADDR[st[1]]:#010x};\n  }}\n")
+            elif st[0] == "encrypt":
+                out.append(f"  encrypt ({st[1]}) {{\n    load \"{st[2]}\" > {KW_RANGE[st[1]][0]:#010x};\n  }}\n")
+            else:
+                out.append(f"  load \"{st[1]}\" > {st[2]:#010x};\n")
+        out.append("}\n")
+    return "".join(out)
+
+
+def _kw_config(n, ex):
+    """The same command file in the YAML form (the dictionary BootImageV21.load_from_config takes, as for SB21 / config)."""
+    blobs = _kw_blobs()
+    opts = {"flags": 0x8, "buildNumber": 1, "productVersion": "1.00.00", "componentVersion": "1.00.00"}
+    for fld in ("dek", "mac", "nonce"):
+        if fld in ex:
+            opts[fld] = USER["sb_" + fld].hex()
+    sections = []
+    for sid, stmts in _kw_program(n):
+        cmds = []
+        for st in stmts:
+            if st[0] == "erase":
+                cmds.append({"erase": {"address": st[1], "length": st[2] - st[1]}})
+            elif st[0] == "keywrap":
+                cmds.append({"keywrap": {"keyblob_id": st[1], "address": KW_ADDR[st[1]], "values": OTFAD_KEK.hex()}})
+            elif st[0] == "encrypt":
+                cmds.append({"encrypt": {"keyblob_id": st[1], "address": KW_RANGE[st[1]][0], "file": st[2]}})
+            else:
+                cmds.append({"load": {"address": st[2], "file": st[1]}})
+        sections.append({"section_id": sid, "options": {}, "commands": cmds})
+    return {
+        "family": "rt5xx",
+        "options": opts,
+        "keyblobs": [{"keyblob_id": i, "keyblob_content": [{"start": KW_RANGE[i][0], "end": KW_RANGE[i][1], "key": key.hex(), "counter": ctr.hex()}]}
+                     for i, (key, ctr) in enumerate(blobs)],
+        "sections": sections,
+        "signPrivateKey": PRIV,
+    }
+
+
+def sb21kw_bd(n, ex):
+    """As `nxpimage sb21 export -c file.bd -k .. -s .. -S .. -R ..`: BD text -> BDParser -> load_from_config."""
+    path = os.path.join(job["dir"], f"sbkw_{n}.bd")
+    with open(path, "w") as f:
+        f.write(_kw_bd_text(n))
+    conf = BootImageV21.parse_sb21_config(path, external_files=[])
+    if any(k in conf["options"] for k in ("zeroPadding", "dek", "mac", "nonce")):
+        raise RuntimeError("the command file must leave every secret to SPSDK")
+    return BootImageV21.load_from_config(
+        config=conf,
+        key_file_path=os.path.join(KEYS, "SBkek_PUF.txt"),
+        signature_provider=get_signature_provider(local_file_key=PRIV),
+        signing_certificate_file_paths=[ROOTS[0]],
+        root_key_certificate_paths=ROOTS,
+        rkth_out_path=os.path.join(job["dir"], "hash.bin"),
+        search_paths=[job["dir"]],
+    )
+
+
+def sb21kw_config(n, ex):
+    """The YAML form of the command file (keyblobs + sections with keywrap / encrypt commands) through load_from_config."""
+    return BootImageV21.load_from_config(
+        config=_kw_config(n, ex),
+        key_file_path=os.path.join(KEYS, "SBkek_PUF.txt"),
+        signing_certificate_file_paths=[ROOTS[0]],
+        root_key_certificate_paths=ROOTS,
+        rkth_out_path=os.path.join(job["dir"], "hash.bin"),
+        search_paths=[job["dir"]],
+    )
+
+
+def sbkw_export(img):
+    data = img.export()
+    f, ctr = sb_read(data, "SB21")           # DEK, MAC key, nonce, header padding as for every SB2.1 file
+    # the file is walked by the independent boot-ROM executor (section decryption, command decoding); the load commands at the key-blob
+    # table addresses carry the wrapped key blobs, which the OTFAD key-blob loader of the hardware model unwraps with the OTFAD KEK
+    ev = c04_rom.run(data, KEK, max_payload_log=128)
+    if not ev or ev[-1].get("ev") != "Accept":
+        raise RuntimeError(f"the exported SB2.1 file is not accepted by the boot-ROM executor: {json.dumps(ev[-1])[:300] if ev else 'no event'}")
+    blobs = _kw_blobs()
+    for e in ev:
+        if e.get("ev") != "Cmd" or e.get("tag") != 2:
+            continue
+        addr, cnt = (e["addr"][0] << 16) | e["addr"][1], (e["cnt"][0] << 16) | e["cnt"][1]
+        if addr not in KW_ADDR:
+            continue
+        i = KW_ADDR.index(addr)
+        if cnt != 64 or len(e["payload"]) != 64 or f"filler{i + 1}" in f:
+            raise RuntimeError(f"load command at the key-blob table address {addr:#x}: {cnt} bytes (a wrapped key blob record has 64)")
+        rec = c13_hw.otfad_load_table(bytes(e["payload"]), OTFAD_KEK, 1)[0]
+        if not (rec["ivOk"] and rec["crcOk"] and rec["key"] == blobs[i][0] and rec["ctr"] == blobs[i][1] and rec["srt"] == KW_RANGE[i][0]):
+            raise RuntimeError(f"the load at {addr:#x} does not unwrap to key blob {i} of the command file with the OTFAD KEK")
+        f[f"filler{i + 1}"] = rec["zero"]
+    if "filler1" not in f or "filler2" not in f:
+        raise RuntimeError("the exported SB2.1 file has no load command for a keywrap statement of the command file")
+    return f, ctr
 
 
 # ---------------------------------------------------------------------------------------------- encrypted MBI
@@ -532,6 +679,7 @@ def hex_export(obj):
 
 BUILD = {
     ("SB20", "ctor"): sb20_ctor, ("SB21", "ctor"): sb21_ctor, ("SB21", "config"): sb21_config,
+    ("SB21KW", "bd"): sb21kw_bd, ("SB21KW", "config"): sb21kw_config,
     ("MBI", "ctor"): mbi_ctor, ("MBI", "config"): mbi_config,
     ("OTFAD", "ctor"): otfad_ctor,
     ("IEE", "ctor"): iee_ctor, ("IEECTR", "ctor"): ieectr_ctor,
@@ -544,7 +692,7 @@ RECONFIG = {"MBI": mbi_reconfig}
 
 
 def attrs(kind, obj):
-    if kind in ("SB20", "SB21"):
+    if kind in ("SB20", "SB21", "SB21KW"):
         return sb_attrs(obj, ("dek", "mac", "nonce"))
     if kind == "MBI":
         return mbi_attrs(obj, None)
@@ -566,6 +714,8 @@ def attrs(kind, obj):
 def export(kind, obj):
     if kind in ("SB20", "SB21"):
         return sb_export(obj, kind)
+    if kind == "SB21KW":
+        return sbkw_export(obj)
     if kind == "MBI":
         return mbi_export(obj)
     if kind == "OTFAD":
